@@ -99,3 +99,6 @@ func vModifiesAll() {}
 
 // vAllocs is the ghost counter of SSA-level allocations.
 func vAllocs() uint64 { return 0 }
+
+// verif_true is the default invariant of range loops over maps and strings.
+func verif_true() bool { return true }
